@@ -235,6 +235,10 @@ def check(run):
         for i in others:
             # explicit mask operand: its source index comes first in the output, ahead of the sensor pair
             k = ins[i][-2] if len(ins[i]) >= 2 else None
+            if k is None and len(ins[i]) == 1 and ins[i][0] == t_letter and derives(info[i][2], 'mask') and len(out) == 2:
+                # a mask WITHOUT a source axis (one weight per frame) as its own operand '...t': nothing to place in the output
+                run.ok('R-EIN', f'PSD {st["sub"]!r}: mask without a source axis weights the frames', s.loc, '')
+                continue
             okk = k is not None and k in out and out.index(k) == len(out) - 3 and derives(info[i][2], 'mask')
             run.check(okk, 'R-EIN', f'PSD {st["sub"]!r}: source index ahead of the sensor pair', s.loc, '',
                       f'{st["sub"]!r}: the mask operand must contribute the source index directly in front of the two sensor indices', construct=f'R-EIN::{Q}::source-index')
